@@ -108,8 +108,10 @@ def conv_int(t):
         return (UNSPEC, None)
     if not t:
         return (REJECT, None)   # no digit at all
-    if t[0:1] in (b' ', b'\t', b'\n', b'\v', b'\f', b'\r') or t[-1:] in (b' ', b'\t', b'\n', b'\v', b'\f', b'\r'):
-        return (UNSPEC, None)   # surrounding white space
+    if t[0:1] in (b' ', b'\t', b'\n', b'\v', b'\f', b'\r'):
+        return (UNSPEC, None)   # leading white space (the C conversion functions skip it; the statement does not say)
+    if t[-1:] in (b' ', b'\t', b'\n', b'\v', b'\f', b'\r'):
+        return (REJECT, None)   # trailing white space: the whole token is not a numeral, nothing may be cut off silently
     if t[0:1] == b'+':
         return (UNSPEC, None)   # leading plus
     if t[0:1] == b'-' and t[1:2] == b'0' and len(t) > 2:
@@ -145,8 +147,10 @@ def conv_float(t):
         return (UNSPEC, None)
     if not t:
         return (REJECT, None)
-    if t[0:1] in (b' ', b'\t', b'\n', b'\v', b'\f', b'\r') or t[-1:] in (b' ', b'\t', b'\n', b'\v', b'\f', b'\r'):
+    if t[0:1] in (b' ', b'\t', b'\n', b'\v', b'\f', b'\r'):
         return (UNSPEC, None)
+    if t[-1:] in (b' ', b'\t', b'\n', b'\v', b'\f', b'\r'):
+        return (REJECT, None)
     if t[0:1] == b'+':
         return (UNSPEC, None)
     low = t.lower().lstrip(b'-')
@@ -164,7 +168,7 @@ def conv_float(t):
         # exact zero or underflow to zero
         m = re.sub(rb'[eE].*', b'', t)
         if any(c in b'123456789' for c in m):
-            return (UNSPEC, None)   # underflow: range treatment of tiny values is not specified
+            return (REJECT, None)   # a non-zero numeral that underflows to zero: neither exact nor within the range ("never truncated or defaulted")
         return (ACCEPT, v)
     if abs(v) < DBL_MIN:
         return (UNSPEC, None)   # denormal results
